@@ -10,20 +10,22 @@
    pair with [codec_ok]: decode undone by encode - mac_roman, the default), both file versions, every
    layer-info padding > 0.  Payloads of tagged blocks and image resources are raw bytes in the model,
    for every key and id (the implementation side of the comparison runs with its payload-class
-   registries emptied; payload classes are exercised by the oracle stream only).
+   registries emptied; payload classes: stage 2 at the end of this file, and the oracle stream).
 
    The full statement  [forall b d, read b = Ok d -> wf_psd d]  (everything the reader produces is what
-   the writer hands back unchanged) is FALSE of the faithful model: five exactly characterised classes
-   are exhibited ([read_wf_refuted], [resave_refuted]; each replayed on the real code by the harness):
+   the writer hands back unchanged) is FALSE of the faithful model.  The exactly characterised classes
+   ([read_wf_refuted], [resave_refuted]; each replayed on the real code by the harness):
      F-C02-1  layer count 0 in a non-empty layer-info block     -> ([], []) comes back as (None, None)
      F-C02-2  end of file met inside the section                -> tagged_blocks None comes back empty
-     F-C02-3  empty GlobalLayerMaskInfo, < 17 bytes after it    -> dropped on re-read, second save shorter
-     F-C02-4  tagged blocks without a GlobalLayerMaskInfo       -> re-saved file can become UNREADABLE
      F-C02-5  35-byte mask block with both feathers             -> re-saved file UNREADABLE (reader-side F-C01-3)
-   (and one in a payload class, stage 2 below: F-C02-6 SectionDividerSetting of 8..11 bytes loses its sub type)
-   [resave_guard] is the conjunction of the five guards; on the reader's range it is EQUIVALENT to
-   well-formedness ([read_wf_exact]): there is no sixth class in the model. *)
-From PsdV Require Import Base.Prelude Psd.Codec Psd.Model Psd.Proofs Psd.Corr Psd.Leaf Psd.LeafProofs Psd.Resave Psd.ResaveProofs.
+   and, until /repo f3a2729 (reader of Psd/Legacy.v, [resave_refuted_before_f3a2729]):
+     F-C02-3  empty GlobalLayerMaskInfo, < 17 bytes after it    -> dropped on re-read, second save shorter   (fixed)
+     F-C02-4  tagged blocks without a GlobalLayerMaskInfo       -> re-saved file UNREADABLE                  (fixed:
+              proved unreachable from any byte string for the current reader, [glmi_class_unreachable])
+   (and one in a payload class, stage 2 below: F-C02-6 SectionDividerSetting of 8..11 bytes loses its sub type).
+   [resave_guard] is the conjunction of the three remaining guards; on the reader's range it is EQUIVALENT
+   to well-formedness ([read_wf_exact]): there is no further class in the model. *)
+From PsdV Require Import Base.Prelude Psd.Codec Psd.Model Psd.Proofs Psd.Legacy Psd.Corr Psd.Leaf Psd.LeafProofs Psd.Resave Psd.ResaveProofs Psd.ResaveWrite.
 From Coq Require Import ZArith List Bool Lia.
 Import ListNotations.
 Open Scope Z_scope.
@@ -31,49 +33,86 @@ Open Scope Z_scope.
 (* ------------------------------------------------------------------ what the reader produces is writable *)
 Theorem read_wf :
   forall enc_s dec_s, codec_ok enc_s dec_s ->
-  forall b d, read_psd dec_s b = Ok d -> resave_guard d = true -> wf_resave enc_s dec_s d.
+  forall b d, bytes b -> read_psd dec_s b = Ok d -> resave_guard d = true -> wf_resave enc_s dec_s d.
 Proof. exact read_psd_wf. Qed.
 Print Assumptions read_wf.
 
 (* ... and the guards are exact: on the reader's range, well-formed = guarded *)
 Theorem read_wf_exact :
   forall enc_s dec_s, codec_ok enc_s dec_s ->
-  forall b d, read_psd dec_s b = Ok d -> (wf_psd enc_s dec_s d = true <-> resave_guard d = true).
+  forall b d, bytes b -> read_psd dec_s b = Ok d -> (wf_psd enc_s dec_s d = true <-> resave_guard d = true).
 Proof.
-  intros enc_s dec_s Hc b d Hr. split; [apply wf_psd_guard|exact (read_psd_wf enc_s dec_s Hc b d Hr)].
+  intros enc_s dec_s Hc b d Hb Hr. split.
+  - intros H. apply guard_of_full. exact (wf_psd_guard enc_s dec_s d H).
+  - exact (read_psd_wf enc_s dec_s Hc b d Hb Hr).
 Qed.
 Print Assumptions read_wf_exact.
+
+(* since f3a2729 the reader cannot produce tagged blocks without a global layer mask info (the class of F-C02-4):
+   a block read in the last 1..3 bytes of the section leaves the image data starting inside its signature *)
+Theorem glmi_class_unreachable :
+  forall dec_s b d, bytes b -> read_psd dec_s b = Ok d -> g_glmi_before_blocks (p_lami d) = true.
+Proof. exact glmi_before_blocks_reached. Qed.
+Print Assumptions glmi_class_unreachable.
 
 (* ------------------------------------------------------------------ re-saving *)
 (* Under the guards, for every padding: whenever the save succeeds, the saved bytes are accepted
    again, read to an equal structure, and a second save reproduces the first byte for byte (and a
-   third read gives that structure again).  Success of the save itself: [save_succeeds] below. *)
+   third read gives that structure again).  No size bound here; success of the save: [save_succeeds]. *)
 Theorem resave_guarded :
   forall enc_s dec_s, codec_ok enc_s dec_s ->
-  forall pad b d s n, 0 < pad ->
+  forall pad b d s n, 0 < pad -> bytes b ->
     read_psd dec_s b = Ok d -> resave_guard d = true ->
     write_psd enc_s pad d = Ok (s, n) ->
     exists d', read_psd dec_s s = Ok d' /\ eqv d d' /\ write_psd enc_s pad d' = Ok (s, n) /\
                psd_after_write d' = d'.
 Proof.
-  intros enc_s dec_s Hc pad b d s n Hp Hr Hg Hw.
-  destruct (resave_of_write enc_s dec_s Hc pad b d s n Hp Hr Hg Hw) as (H1 & H2 & H3).
+  intros enc_s dec_s Hc pad b d s n Hp Hb Hr Hg Hw.
+  destruct (resave_of_write enc_s dec_s Hc pad b d s n Hp Hb Hr Hg Hw) as (H1 & H2 & H3).
   exists (psd_after_write d). unfold eqv. auto.
 Qed.
 Print Assumptions resave_guarded.
+
+(* Saving what was read SUCCEEDS - no guard needed: every field the writer packs was read from a field of the same
+   width, every length-prefixed block fits its length field (the writer's padding where the reader was lenient is
+   bounded by what the element consumed: written <= 4 * consumed throughout).  For files below 1 GiB; beyond 4 GiB
+   a 4-byte length field can overflow when padding is added (no witness can be computed at that size). *)
+Theorem save_succeeds :
+  forall enc_s dec_s, codec_ok enc_s dec_s ->
+  forall pad b d, bytes b -> 0 < pad -> 4 * len b + pad + 20 < 2 ^ 32 ->
+    read_psd dec_s b = Ok d -> exists s n, write_psd enc_s pad d = Ok (s, n).
+Proof. exact write_psd_ok. Qed.
+Print Assumptions save_succeeds.
+
+(* THE PROPERTY, for every accepted byte string below 1 GiB outside the three classes: saving succeeds, the saved
+   bytes are accepted and read to an equal structure, and saving that reproduces the bytes *)
+Theorem resave :
+  forall enc_s dec_s, codec_ok enc_s dec_s ->
+  forall pad b d, bytes b -> 0 < pad -> 4 * len b + pad + 20 < 2 ^ 32 ->
+    read_psd dec_s b = Ok d -> resave_guard d = true ->
+    exists s n, write_psd enc_s pad d = Ok (s, n) /\
+      exists d', read_psd dec_s s = Ok d' /\ eqv d d' /\ write_psd enc_s pad d' = Ok (s, n).
+Proof.
+  intros enc_s dec_s Hc pad b d Hb Hp Hs Hr Hg.
+  destruct (write_psd_ok enc_s dec_s Hc pad b d Hb Hp Hs Hr) as (s & n & Hw).
+  exists s, n. split; [exact Hw|].
+  destruct (resave_guarded enc_s dec_s Hc pad b d s n Hp Hb Hr Hg Hw) as (d' & H1 & H2 & H3 & _).
+  exists d'. auto.
+Qed.
+Print Assumptions resave.
 
 (* unknown resource ids / tagged-block keys (in the model: EVERY id and key) are kept as raw bytes:
    the re-read document has the same resources, the same document-level blocks and the same blocks
    in every layer record - signature, key and payload bytes, in the same order *)
 Theorem unknown_preserved :
   forall enc_s dec_s, codec_ok enc_s dec_s ->
-  forall pad b d s n, 0 < pad ->
+  forall pad b d s n, 0 < pad -> bytes b ->
     read_psd dec_s b = Ok d -> resave_guard d = true -> write_psd enc_s pad d = Ok (s, n) ->
     exists d', read_psd dec_s s = Ok d' /\ p_res d' = p_res d /\ doc_blocks d' = doc_blocks d /\
                map r_blocks (doc_records d') = map r_blocks (doc_records d).
 Proof.
-  intros enc_s dec_s Hc pad b d s n Hp Hr Hg Hw.
-  destruct (resave_of_write enc_s dec_s Hc pad b d s n Hp Hr Hg Hw) as (H1 & _).
+  intros enc_s dec_s Hc pad b d s n Hp Hb Hr Hg Hw.
+  destruct (resave_of_write enc_s dec_s Hc pad b d s n Hp Hb Hr Hg Hw) as (H1 & _).
   exists (psd_after_write d). split; [exact H1|].
   split; [apply after_write_res|]. split; [apply after_write_blocks|apply after_write_record_blocks].
 Qed.
@@ -89,13 +128,13 @@ Print Assumptions reader_py_refines.
 
 Theorem resave_guarded_py :
   forall enc_s dec_s, codec_ok enc_s dec_s ->
-  forall pad b d s n, 0 < pad ->
+  forall pad b d s n, 0 < pad -> bytes b ->
     read_psd_py dec_s b = Ok d -> resave_guard d = true ->
     write_psd enc_s pad d = Ok (s, n) ->
     exists d', read_psd dec_s s = Ok d' /\ eqv d d' /\ write_psd enc_s pad d' = Ok (s, n) /\
                psd_after_write d' = d'.
 Proof.
-  intros enc_s dec_s Hc pad b d s n Hp Hr. apply (resave_guarded enc_s dec_s Hc pad b d s n Hp).
+  intros enc_s dec_s Hc pad b d s n Hp Hb Hr. apply (resave_guarded enc_s dec_s Hc pad b d s n Hp Hb).
   now apply read_psd_py_refines.
 Qed.
 Print Assumptions resave_guarded_py.
@@ -124,18 +163,20 @@ Definition ex_file : list Z :=
    77;122;122;122;122;0;0;0;5;1;2;3;4;5;0;0;0;0;0;7;7;7;7;7;0;0;0;16;0;0;255;255;0;0;0;0;0;0;0;50;128;0;0;0;56;
    66;73;77;97;98;99;100;0;0;0;1;42;0;0;0;0;0;0;0;0;0;0;0;0;1;5;5].
 Example resave_guarded_satisfiable :
-  exists d s n, read_psd raw_codec ex_file = Ok d /\ resave_guard d = true /\
+  exists d s n, bytes ex_file /\ 4 * len ex_file + 4 + 20 < 2 ^ 32 /\ read_psd raw_codec ex_file = Ok d /\ resave_guard d = true /\
     write_psd raw_codec 4 d = Ok (s, n) /\ s <> ex_file /\
     length (doc_blocks d) = 1%nat /\ length (doc_records d) = 1%nat /\ length (p_res d) = 1%nat.
 Proof.
-  do 3 eexists. split; [vm_compute; reflexivity|]. split; [vm_compute; reflexivity|].
+  do 3 eexists. split; [apply Forall_forall; intros x Hx; apply byteb_spec; revert x Hx; apply forallb_forall; vm_compute; reflexivity|].
+  split; [vm_compute; reflexivity|].
+  split; [vm_compute; reflexivity|]. split; [vm_compute; reflexivity|].
   split; [vm_compute; reflexivity|]. split; [vm_compute; discriminate|].
   split; [reflexivity|]. split; reflexivity.
 Qed.
 
-(* ------------------------------------------------------------------ the five refuted classes
+(* ------------------------------------------------------------------ the refuted classes
    Each witness: an accepted byte string b (the structure read is NOT well-formed, exactly one guard
-   fails: [guard_bits] = 2^(k-1)), its first save s, and what goes wrong afterwards. *)
+   fails: [guard_bits] = 1, 2, 16), its first save s, and what goes wrong afterwards. *)
 (* F-C02-1 (vh.c02.W1): layer-info block of 6 bytes declaring 0 layers *)
 Definition w1 : list Z :=
   hdr1 ++
@@ -146,14 +187,6 @@ Definition w2 : list Z :=
   hdr1 ++
   [0;0;0;0;0;0;0;0;0;0;0;52;0;0;0;100;0;1;0;0;0;0;0;0;0;0;0;0;0;1;0;0;0;1;0;0;56;66;73;77;110;111;114;109;255;0;
    8;0;0;0;0;12;0;0;0;0;0;0;0;0;0;0;0;0;0;0].
-(* F-C02-3: empty global layer mask info, then 11 bytes that are no tagged block, 2 bytes of image data *)
-Definition w3 : list Z :=
-  hdr1 ++
-  [0;0;0;0;0;0;0;0;0;0;0;19;0;0;0;0;0;0;0;0;1;2;3;4;5;6;7;8;9;10;11;0;0].
-(* F-C02-4: a 13-byte tagged block right after the layer info, 3 bytes of image data: 16 < 17 bytes *)
-Definition w4 : list Z :=
-  hdr1 ++
-  [0;0;0;0;0;0;0;0;0;0;0;17;0;0;0;0;56;66;73;77;97;98;99;100;0;0;0;1;7;0;0;0].
 (* F-C02-5: a layer record whose mask block is 35 bytes: 18 fixed + parameters byte 0x0a + two feathers *)
 Definition w5 : list Z :=
   hdr1 ++
@@ -164,11 +197,9 @@ Definition w5 : list Z :=
 Theorem read_wf_refuted :
   (exists d, read_psd raw_codec w1 = Ok d /\ wf_psd raw_codec raw_codec d = false /\ guard_bits d = 1) /\
   (exists d, read_psd raw_codec w2 = Ok d /\ wf_psd raw_codec raw_codec d = false /\ guard_bits d = 2) /\
-  (exists d, read_psd raw_codec w3 = Ok d /\ wf_psd raw_codec raw_codec d = false /\ guard_bits d = 4) /\
-  (exists d, read_psd raw_codec w4 = Ok d /\ wf_psd raw_codec raw_codec d = false /\ guard_bits d = 8) /\
   (exists d, read_psd raw_codec w5 = Ok d /\ wf_psd raw_codec raw_codec d = false /\ guard_bits d = 16).
 Proof.
-  split; [|split; [|split; [|split]]]; eexists; (split; [vm_compute; reflexivity|]); split; vm_compute; reflexivity.
+  split; [|split]; eexists; (split; [vm_compute; reflexivity|]); split; vm_compute; reflexivity.
 Qed.
 Print Assumptions read_wf_refuted.
 
@@ -183,30 +214,57 @@ Theorem resave_refuted :
      read_psd raw_codec s = Ok d' /\ d' <> psd_after_write d /\
      la_blocks (p_lami d) = None /\ la_blocks (p_lami d') = Some [] /\
      write_psd raw_codec 4 d' = Ok (s, n)) /\
-  (* F-C02-3: the global layer mask info is dropped and the second save is 4 bytes shorter *)
-  (exists d s n d' s' n', read_psd raw_codec w3 = Ok d /\ write_psd raw_codec 4 d = Ok (s, n) /\
-     read_psd raw_codec s = Ok d' /\ la_glmi (p_lami d) = Some glmi_empty /\ la_glmi (p_lami d') = None /\
-     write_psd raw_codec 4 d' = Ok (s', n') /\ n' = n - 4) /\
-  (* F-C02-4, F-C02-5: the saved bytes are rejected *)
-  (exists d s n, read_psd raw_codec w4 = Ok d /\ write_psd raw_codec 4 d = Ok (s, n) /\
-     read_psd raw_codec s = Err IOErr) /\
+  (* F-C02-5: the saved bytes are rejected *)
   (exists d s n, read_psd raw_codec w5 = Ok d /\ write_psd raw_codec 4 d = Ok (s, n) /\
      read_psd raw_codec s = Err IOErr).
 Proof.
-  split; [|split; [|split; [|split]]].
+  split; [|split].
   - do 4 eexists. split; [vm_compute; reflexivity|]. split; [vm_compute; reflexivity|].
     split; [vm_compute; reflexivity|]. split; [vm_compute; discriminate|].
     split; [reflexivity|]. split; [reflexivity|]. vm_compute; reflexivity.
   - do 4 eexists. split; [vm_compute; reflexivity|]. split; [vm_compute; reflexivity|].
     split; [vm_compute; reflexivity|]. split; [vm_compute; discriminate|].
     split; [reflexivity|]. split; [reflexivity|]. vm_compute; reflexivity.
-  - do 6 eexists. split; [vm_compute; reflexivity|]. split; [vm_compute; reflexivity|].
-    split; [vm_compute; reflexivity|]. split; [reflexivity|]. split; [reflexivity|].
-    split; [vm_compute; reflexivity|]. reflexivity.
-  - do 3 eexists. split; [vm_compute; reflexivity|]. split; [vm_compute; reflexivity|vm_compute; reflexivity].
   - do 3 eexists. split; [vm_compute; reflexivity|]. split; [vm_compute; reflexivity|vm_compute; reflexivity].
 Qed.
 Print Assumptions resave_refuted.
+
+(* ------------------------------------------------------------------ the two classes repaired by /repo f3a2729 *)
+(* F-C02-3: empty global layer mask info, then 11 bytes that are no tagged block, 2 bytes of image data *)
+Definition w3 : list Z :=
+  hdr1 ++
+  [0;0;0;0;0;0;0;0;0;0;0;19;0;0;0;0;0;0;0;0;1;2;3;4;5;6;7;8;9;10;11;0;0].
+(* F-C02-4: a 13-byte tagged block right after the layer info, 3 bytes of image data: 16 < 17 bytes *)
+Definition w4 : list Z :=
+  hdr1 ++
+  [0;0;0;0;0;0;0;0;0;0;0;17;0;0;0;0;56;66;73;77;97;98;99;100;0;0;0;1;7;0;0;0].
+(* the reader before the fix (Psd/Legacy.v): w3 drifts (second save 4 bytes shorter), w4 is accepted and its
+   save is rejected *)
+Theorem resave_refuted_before_f3a2729 :
+  (exists d s n d' s' n', read_psd_v0 raw_codec w3 = Ok d /\ write_psd raw_codec 4 d = Ok (s, n) /\
+     read_psd_v0 raw_codec s = Ok d' /\ la_glmi (p_lami d) = Some glmi_empty /\ la_glmi (p_lami d') = None /\
+     write_psd raw_codec 4 d' = Ok (s', n') /\ n' = n - 4) /\
+  (exists d s n, read_psd_v0 raw_codec w4 = Ok d /\ guard_bits d = 8 /\ write_psd raw_codec 4 d = Ok (s, n) /\
+     read_psd_v0 raw_codec s = Err IOErr).
+Proof.
+  split.
+  - do 6 eexists. split; [vm_compute; reflexivity|]. split; [vm_compute; reflexivity|].
+    split; [vm_compute; reflexivity|]. split; [reflexivity|]. split; [reflexivity|].
+    split; [vm_compute; reflexivity|]. reflexivity.
+  - do 3 eexists. split; [vm_compute; reflexivity|]. split; [vm_compute; reflexivity|].
+    split; [vm_compute; reflexivity|vm_compute; reflexivity].
+Qed.
+Print Assumptions resave_refuted_before_f3a2729.
+(* the reader after the fix: w3 re-saves losslessly (the global layer mask info is found again), w4 is rejected *)
+Example fixed_by_f3a2729 :
+  (exists d s n, read_psd raw_codec w3 = Ok d /\ resave_guard d = true /\ write_psd raw_codec 4 d = Ok (s, n) /\
+     read_psd raw_codec s = Ok (psd_after_write d) /\ la_glmi (p_lami d) = Some glmi_empty) /\
+  read_psd raw_codec w4 = Err IOErr.
+Proof.
+  split; [|vm_compute; reflexivity].
+  do 3 eexists. split; [vm_compute; reflexivity|]. split; [vm_compute; reflexivity|].
+  split; [vm_compute; reflexivity|]. split; [vm_compute; reflexivity|reflexivity].
+Qed.
 
 (* ------------------------------------------------------------------ stage 2: the payload classes modelled in Psd/Leaf.v
    (value elements, SectionDividerSetting, SheetColorSetting, ReferencePoint, ChannelBlendingRestrictionsSetting,
